@@ -147,6 +147,9 @@ def gen(rng: Rng, tier, i):
         return {"w": "A", "cfgs": cfgs}
     if w == "B":
         return {"w": "B", "data_seed": rng.randrange(1000), "scan": rng.pick([[6, 6], [4, 6], [3, 9]]),
+                # a user-supplied detector mask (beam stop / dead pixels): masked pixels must drop out of
+                # loss and gradient the same way in every batch (round 16, S-C09p)
+                "det_mask": rng.fork("det_mask").pick([None, None, None, "beamstop", "dead"]),
                 "loss": rng.pick(["l2_amplitude", "l1_amplitude", "l2_intensity", "l1_intensity", "poisson"]),
                 "autograd": rng.fork("autograd").pick([True, True, False]),
                 "ratio": rng.pick([0.0, 0.0, 0.25, 0.5]), "mode": rng.pick(["grid", "random"]),
@@ -289,6 +292,8 @@ def _check_batcher(cfg, res, viol):
 
 
 def _build(plan, rng=42, ratio=None, mode=None, **kw):
+    if plan.get("det_mask"):
+        kw["dset_opts"] = dict(kw.get("dset_opts") or {}, det_mask=plan["det_mask"])
     pt = tinyptycho.make_ptycho(plan["data_seed"], scan=tuple(plan["scan"]), rng=rng,
                                 cls=_ctx["Tap"], **kw)
     if ratio is not None:
@@ -309,6 +314,8 @@ def _run_B(plan, res, viol):
     import torch
 
     bump(res["probes"], "workload_B")
+    if plan.get("det_mask"):
+        bump(res["probes"], "detector_mask_given")
     if not plan.get("autograd", True):
         bump(res["probes"], "analytic_gradients")
     pt = _build(plan, ratio=plan["ratio"], mode=plan["mode"], obj_type=plan["obj_type"],
